@@ -138,6 +138,9 @@ func (g *Gen) call(st *State, site ssa.Instruction, c *ssa.CallCommon, rt types.
 		args = append(args, g.value(st, a))
 	}
 	keys, static, pkgPath, name := g.calleeKeys(c)
+	if g.monitorCall(st, c, static) {
+		return TupleV{}
+	}
 
 	// 1. call-site contract written in this function's spec
 	if g.spec != nil {
@@ -235,11 +238,70 @@ func (g *Gen) assumeFreshResult(st *State, v Val, rt types.Type) {
 	g.assume(st, g.allocatedInv(st, v, rt))
 }
 
-func (g *Gen) havocAll(st *State) {
+func (g *Gen) havocAll(st *State) { g.havocAllExcept(st, nil) }
+
+// preservedKey: does heap component key belong to one of the named types?
+func (g *Gen) preservedKey(key string, names []string) bool {
+	for _, n := range names {
+		star := strings.HasPrefix(n, "*")
+		base := strings.TrimPrefix(n, "*")
+		for _, pre := range []string{g.W.modPath + "/", ""} {
+			_ = pre
+		}
+		// key is typeKey(root) + path; typeKey uses full package paths
+		idx := strings.Index(key, "."+base)
+		if idx < 0 {
+			continue
+		}
+		rootEnd := idx + 1 + len(base)
+		root := key[:rootEnd]
+		if star != strings.HasPrefix(root, "*") {
+			continue
+		}
+		if strings.ContainsAny(strings.TrimPrefix(root, "*"), "[]") {
+			continue
+		}
+		if rootEnd == len(key) || key[rootEnd] == '.' || key[rootEnd] == '!' || key[rootEnd] == '[' {
+			// make sure base is the type's name, not a field with that name: the root must not contain a further ".<lower>" after the package path
+			pkgAndType := strings.TrimPrefix(root, "*")
+			if i := strings.LastIndex(pkgAndType, "/"); i >= 0 {
+				pkgAndType = pkgAndType[i+1:]
+			}
+			if strings.Count(pkgAndType, ".") == 1 {
+				return true
+			}
+		}
+	}
+	return false
+}
+
+func (g *Gen) havocAllExcept(st *State, preserve []string) {
 	if g.frameOn && !g.discovery {
 		g.oblige(st, "frame", "modifies", "call with unknown effects inside a function with a modifies clause", "false")
 	}
-	st.heap = map[string]string{}
+	if rs := g.rootSpec(); rs != nil && len(rs.Preserves) > 0 && !g.discovery {
+		for _, want := range rs.Preserves {
+			ok := false
+			for _, have := range preserve {
+				if have == want {
+					ok = true
+				}
+			}
+			if !ok {
+				g.oblige(st, "frame", "preserves", "call may write components of "+want+", which this function promises to preserve", "false")
+			}
+		}
+	}
+	kept := map[string]string{}
+	if len(preserve) > 0 {
+		// materialise the preserved components known so far, so that they keep their terms
+		for k := range g.heapSorts {
+			if g.preservedKey(k, preserve) {
+				kept[k] = g.heapTerm(st, k, g.heapSorts[k])
+			}
+		}
+	}
+	st.heap = kept
 	g.nfresh++
 	st.epoch = fmt.Sprintf("c%d", g.nfresh)
 	old := st.ac
@@ -269,7 +331,7 @@ func (g *Gen) applyCalleeSpec(st *State, cs *CalleeSpec, c *ssa.CallCommon, recv
 	return g.applyContract(st, contractApp{
 		what: "callee " + cs.Name, binds: binds, requires: cs.Requires, ensures: cs.Ensures, sets: cs.Sets,
 		mod: cs.Modifies, pure: cs.Pure, havocAll: cs.Havoc || (cs.Modifies == nil && !cs.Pure), rt: rt, resultNames: cs.Results,
-		clausePrefix: "callee " + cs.Name + " ", ownNames: true, mutGhosts: cs.MutGhosts,
+		clausePrefix: "callee " + cs.Name + " ", ownNames: true, mutGhosts: cs.MutGhosts, preserves: cs.Preserves,
 	})
 }
 
@@ -321,7 +383,7 @@ func (g *Gen) applyFuncSpecWith(st *State, fs *FuncSpec, fn *ssa.Function, args 
 			}
 		}
 		if bexpr != nil {
-			binds[gd.Name] = g.evalSpec(&specCtx{g: g, st: st, old: st, binds: binds, calleeOnly: true}, bexpr)
+			binds[gd.Name] = g.evalSpec(&specCtx{g: g, st: st, old: st, binds: binds, oldIsPre: true}, bexpr)
 			continue
 		}
 		if gd.Init != nil {
@@ -355,9 +417,23 @@ func (g *Gen) applyFuncSpecWith(st *State, fs *FuncSpec, fn *ssa.Function, args 
 			}
 		}
 	}
+	defer func() {
+		// lock hand-over declared by the callee
+		lctx := &specCtx{g: g, st: st, old: st, binds: binds, calleeOnly: true}
+		for _, e := range fs.Releases {
+			st.held[g.heldKeyOfExpr(lctx, e)] = "false"
+		}
+		for _, e := range fs.Acquires {
+			st.held[g.heldKeyOfExpr(lctx, e)] = "true"
+		}
+	}()
+	for _, e := range fs.Releases {
+		lctx := &specCtx{g: g, st: st, old: st, binds: binds, calleeOnly: true}
+		g.oblige(st, "lock", "call "+fs.Name+" releases", "call "+fs.Name+": the lock it releases is held", g.heldTerm(st, g.heldKeyOfExpr(lctx, e)))
+	}
 	app := contractApp{
 		what: "call " + fs.Name, binds: binds, requires: fs.Requires, ensures: ens, mod: fs.Modifies, pure: pure, havocAll: havoc,
-		rt: rt, resultNames: rn, clausePrefix: "call " + fs.Name + " ", calleeGhosts: fs.Ghosts, mutGhosts: mut,
+		rt: rt, resultNames: rn, clausePrefix: "call " + fs.Name + " ", calleeGhosts: fs.Ghosts, mutGhosts: mut, preserves: fs.Preserves,
 	}
 	if extra != nil {
 		// positional names of the clause are additional aliases for the explicit arguments
@@ -395,6 +471,7 @@ type contractApp struct {
 	ownNames     bool // callee clause inside this function's spec: caller's locals are visible
 	calleeGhosts []*GhostDecl
 	mutGhosts    []string
+	preserves    []string
 	extra        *CalleeSpec // call-site additions on top of a function contract (mixed naming context)
 }
 
@@ -405,7 +482,7 @@ func (g *Gen) applyContract(st *State, a contractApp) Val {
 		ctx.oldIsPre = true
 	}
 	for _, c := range a.requires {
-		goal := g.evalBool(ctx, c.E)
+		goal := g.evalGoal(ctx, c.E)
 		g.oblige(st, "requires", a.clausePrefix+c.ID, a.what+": precondition "+c.Src, goal)
 	}
 	// effects
@@ -426,7 +503,7 @@ func (g *Gen) applyContract(st *State, a contractApp) Val {
 		g.assume(st, "(<= "+old+" "+st.ac+")")
 		g.noteAlloc()
 	case a.havocAll:
-		g.havocAll(st)
+		g.havocAllExcept(st, a.preserves)
 	}
 	for _, m := range a.mutGhosts {
 		st.ghosts[m] = g.havocGhost(m, st.ghosts[m])
@@ -454,7 +531,7 @@ func (g *Gen) applyContract(st *State, a contractApp) Val {
 		xctx := &specCtx{g: g, st: pre, old: pre, binds: a.binds, oldIsPre: true}
 		for _, c := range a.extra.Requires {
 			// checked in the pre-state; reported at the call
-			goal := g.evalBool(xctx, c.E)
+			goal := g.evalGoal(xctx, c.E)
 			g.oblige(st, "requires", "callee "+a.extra.Name+" "+c.ID, a.what+": call-site precondition "+c.Src, goal)
 		}
 		a.sets = a.extra.Sets
@@ -480,12 +557,12 @@ func (g *Gen) applyContract(st *State, a contractApp) Val {
 	}
 	ectx := &specCtx{g: g, st: st, old: pre, binds: a.binds, results: results, resultNames: a.resultNames, calleeOnly: !a.ownNames, oldIsPre: true}
 	for _, c := range a.ensures {
-		g.assume(st, g.evalBool(ectx, c.E))
+		g.assume(st, g.evalAssume(ectx, c.E))
 	}
 	if a.extra != nil {
 		xe := &specCtx{g: g, st: st, old: pre, binds: a.binds, results: results, resultNames: a.resultNames, oldIsPre: true}
 		for _, c := range a.extra.Ensures {
-			g.assume(st, g.evalBool(xe, c.E))
+			g.assume(st, g.evalAssume(xe, c.E))
 		}
 	}
 	if res == nil {
@@ -583,6 +660,9 @@ func (g *Gen) havocItem(st *State, it frameItem) {
 
 // checkFrame: a write to (key, ref, idx) must be permitted by the function's modifies clause.
 func (g *Gen) checkFrame(st *State, key, ref, idx string) {
+	if rs := g.rootSpec(); rs != nil && len(rs.Preserves) > 0 && !g.discovery && g.entry != nil && g.preservedKey(key, rs.Preserves) {
+		g.oblige(st, "frame", "preserves", "write to "+key+" of a pre-existing object, which this function promises to preserve", "(>= "+ref+" "+g.entry.ac+")")
+	}
 	if !g.frameOn || g.discovery || g.entry == nil {
 		return
 	}
